@@ -1,10 +1,923 @@
-//! C25 — not built yet.
+//! C25 RRDP updates reproduce the server state or report failure.
+//!
+//! Stateful PBT: an RRDP publisher model (`httpsrv::RrdpServer`) is driven by generated operations;
+//! routinator's real collector fetches from it through the in-harness HTTPS server 2–8 times per case,
+//! each fetch with 0–2 scripted faults; the local cache is carried over.
+//! Oracle (outcome based, no prediction of *whether* an update succeeds): whenever
+//! `Run::repository(&ca)` hands out an RRDP repository, the archive content must equal the
+//! server's object set at the notified (session, serial) — for a 304 the one in the local state —
+//! and the recorded state must name that session/serial; `load_object` must agree.
+
+use std::collections::BTreeMap;
+use std::sync::atomic::{AtomicU64, Ordering};
+
+use bytes::Bytes;
+use proptest::prelude::*;
+use routinator::collector::Collector;
+use rpki::uri;
+use serde::{Deserialize, Serialize};
+use uuid::Uuid;
 
 use crate::core::*;
+use crate::erun::scratch_base;
+use crate::httpsrv::*;
 
-pub const IMPLEMENTED: bool = false;
+pub const IMPLEMENTED: bool = true;
 
-pub fn run(_ctx: &Ctx, _rep: &mut Report, _replay: Option<&serde_json::Value>) {
-    eprintln!("C25: check not implemented");
-    std::process::exit(2);
+const HOST: &str = "rrdp.rpki.test";
+const N_URIS: u8 = 6;
+const N_CONTENTS: u8 = 3;
+
+pub const KEY_GAP: &str = "C25/gapped-delta-list-applied";
+pub const KEY_REUSE: &str = "C25/modified-copy-reused-after-failed-update";
+pub const KEY_304_NOCOPY: &str = "C25/not-modified-without-local-copy/run-failed";
+
+static EXCLUDED_GAP: AtomicU64 = AtomicU64::new(0);
+static EXCLUDED_REUSE: AtomicU64 = AtomicU64::new(0);
+static EXCLUDED_304: AtomicU64 = AtomicU64::new(0);
+static CLEAN_FETCH_FAILED: AtomicU64 = AtomicU64::new(0);
+
+#[derive(Serialize, Deserialize, Clone, Debug, PartialEq, Eq)]
+pub enum Op {
+    /// publish (or update) object `u` with content `c`
+    Put { u: u8, c: u8 },
+    Del { u: u8 },
+    /// several changes in one delta
+    Multi(Vec<(u8, Option<u8>)>),
+    NewSession,
+    /// serial jump without deltas
+    Jump(u8),
+    /// server forgets all but the newest k deltas
+    Trim(u8),
+    /// server rewrites its newest delta (and current state) without a new serial
+    Rewrite { u: u8, c: u8 },
+}
+
+#[derive(Serialize, Deserialize, Clone, Debug, PartialEq, Eq)]
+pub enum Fault {
+    // notification file
+    N404,
+    N500,
+    NDrop,
+    NMalformed,
+    /// 304 whatever the request says
+    N304,
+    /// an older notification file (k versions back) is served
+    NStale(u8),
+    /// a delta URI on another host
+    NOtherOrigin,
+    /// newest k list entries missing
+    LTruncNew(u8),
+    /// oldest k list entries missing
+    LTruncOld(u8),
+    /// an inner entry of the needed range missing
+    LGap(u8),
+    LDup(u8),
+    /// file i re-serialised (same meaning, other hash), list names the new hash
+    LHashMut(u8),
+    /// list padded beyond rrdp-max-delta-list-len
+    LOverlong,
+    // delta file i of the needed range
+    DHash(u8),
+    /// delta file altered in transit (one more object), listed hash is the honest file's
+    DTamper(u8),
+    DMalformed(u8),
+    DSession(u8),
+    DSerial(u8),
+    D404(u8),
+    D500(u8),
+    DDrop(u8),
+    DRepeat(u8),
+    DPubExisting(u8),
+    DWithdrawMissing(u8),
+    // snapshot file
+    SHash,
+    /// snapshot file altered in transit (one more object), listed hash is the honest file's
+    STamper,
+    SMalformed,
+    SSession,
+    SSerial,
+    S404,
+    S500,
+    SDrop,
+    SDup,
+}
+
+impl Fault {
+    fn name(&self) -> &'static str {
+        use Fault::*;
+        match self {
+            N404 => "N404",
+            N500 => "N500",
+            NDrop => "NDrop",
+            NMalformed => "NMalformed",
+            N304 => "N304",
+            NStale(_) => "NStale",
+            NOtherOrigin => "NOtherOrigin",
+            LTruncNew(_) => "LTruncNew",
+            LTruncOld(_) => "LTruncOld",
+            LGap(_) => "LGap",
+            LDup(_) => "LDup",
+            LHashMut(_) => "LHashMut",
+            LOverlong => "LOverlong",
+            DHash(_) => "DHash",
+            DTamper(_) => "DTamper",
+            DMalformed(_) => "DMalformed",
+            DSession(_) => "DSession",
+            DSerial(_) => "DSerial",
+            D404(_) => "D404",
+            D500(_) => "D500",
+            DDrop(_) => "DDrop",
+            DRepeat(_) => "DRepeat",
+            DPubExisting(_) => "DPubExisting",
+            DWithdrawMissing(_) => "DWithdrawMissing",
+            SHash => "SHash",
+            STamper => "STamper",
+            SMalformed => "SMalformed",
+            SSession => "SSession",
+            SSerial => "SSerial",
+            S404 => "S404",
+            S500 => "S500",
+            SDrop => "SDrop",
+            SDup => "SDup",
+        }
+    }
+}
+
+#[derive(Serialize, Deserialize, Clone, Debug, PartialEq, Eq)]
+pub enum Step {
+    Server(Op),
+    Fetch(Vec<Fault>),
+}
+
+#[derive(Serialize, Deserialize, Clone, Debug, PartialEq, Eq)]
+pub struct Case {
+    pub seed: u64,
+    /// deltas the server retains
+    pub srv_deltas: u8,
+    /// rrdp-max-delta-count of the client
+    pub max_delta_count: u8,
+    /// rrdp-max-delta-list-len of the client
+    pub max_list_len: u8,
+    /// notification served with ETag and honest conditional handling
+    pub etag: bool,
+    pub steps: Vec<Step>,
+}
+
+pub fn obj_uri(u: u8) -> String {
+    format!("rsync://rv.rpki.test/repo/o{}.roa", u % N_URIS)
+}
+
+pub fn content(u: u8, c: u8) -> Bytes {
+    let c = c % N_CONTENTS;
+    let len = [1usize, 40, 3000][c as usize];
+    let mut v = format!("{}:{}:", u % N_URIS, c).into_bytes();
+    while v.len() < len {
+        v.push(b'a' + ((v.len() as u8).wrapping_mul(7).wrapping_add(u).wrapping_add(c) % 26));
+    }
+    v.truncate(len.max(1));
+    if len == 1 {
+        v = vec![b'0' + (u % N_URIS) * N_CONTENTS + c];
+    }
+    Bytes::from(v)
+}
+
+fn op_strategy() -> impl Strategy<Value = Op> {
+    prop_oneof![
+        8 => (0..N_URIS, 0..N_CONTENTS).prop_map(|(u, c)| Op::Put { u, c }),
+        3 => (0..N_URIS).prop_map(|u| Op::Del { u }),
+        3 => prop::collection::vec((0..N_URIS, prop::option::weighted(0.7, 0..N_CONTENTS)), 2..4).prop_map(Op::Multi),
+        1 => Just(Op::NewSession),
+        1 => (1u8..4).prop_map(Op::Jump),
+        1 => (0u8..3).prop_map(Op::Trim),
+        1 => (0..N_URIS, 0..N_CONTENTS).prop_map(|(u, c)| Op::Rewrite { u, c }),
+    ]
+}
+
+fn fault_strategy() -> impl Strategy<Value = Fault> {
+    use Fault::*;
+    let i = || 0u8..4;
+    prop_oneof![
+        Just(N404),
+        Just(N500),
+        Just(NDrop),
+        Just(NMalformed),
+        Just(N304),
+        Just(N304),
+        (1u8..4).prop_map(NStale),
+        Just(NOtherOrigin),
+        (1u8..3).prop_map(LTruncNew),
+        (1u8..3).prop_map(LTruncOld),
+        i().prop_map(LGap),
+        i().prop_map(LGap),
+        i().prop_map(LDup),
+        i().prop_map(LHashMut),
+        Just(LOverlong),
+        i().prop_map(DHash),
+        i().prop_map(DTamper),
+        i().prop_map(DTamper),
+        i().prop_map(DMalformed),
+        i().prop_map(DSession),
+        i().prop_map(DSerial),
+        i().prop_map(D404),
+        i().prop_map(D500),
+        i().prop_map(DDrop),
+        i().prop_map(DRepeat),
+        i().prop_map(DPubExisting),
+        i().prop_map(DWithdrawMissing),
+        Just(SHash),
+        Just(STamper),
+        Just(SMalformed),
+        Just(SSession),
+        Just(SSerial),
+        Just(S404),
+        Just(S404),
+        Just(S500),
+        Just(SDrop),
+        Just(SDup),
+    ]
+}
+
+fn step_strategy() -> impl Strategy<Value = Step> {
+    prop_oneof![
+        5 => op_strategy().prop_map(Step::Server),
+        3 => prop::collection::vec(fault_strategy(), 0..3).prop_map(Step::Fetch),
+    ]
+}
+
+fn count_fetches(steps: &[Step]) -> usize {
+    steps.iter().filter(|s| matches!(s, Step::Fetch(_))).count()
+}
+
+pub fn case_strategy(max_steps: usize) -> impl Strategy<Value = Case> {
+    (any::<u64>(), 2u8..8, 1u8..5, 3u8..8, any::<bool>(), prop::collection::vec(step_strategy(), 4..max_steps)).prop_map(|(seed, srv_deltas, max_delta_count, max_list_len, etag, mut steps)| {
+        // 2..=8 client updates per case
+        while count_fetches(&steps) < 2 {
+            steps.push(Step::Fetch(vec![]));
+        }
+        let mut seen = 0;
+        steps.retain(|s| {
+            if matches!(s, Step::Fetch(_)) {
+                seen += 1;
+                seen <= 8
+            } else {
+                true
+            }
+        });
+        Case { seed, srv_deltas, max_delta_count, max_list_len, etag, steps }
+    })
+}
+
+#[derive(Clone)]
+struct Version {
+    session: Uuid,
+    serial: u64,
+    objects: BTreeMap<String, Bytes>,
+    notification: Vec<u8>,
+}
+
+#[derive(Clone)]
+struct Local {
+    session: Uuid,
+    serial: u64,
+    objects: BTreeMap<String, Bytes>,
+}
+
+fn apply_op(server: &mut RrdpServer, op: &Op) {
+    match op {
+        Op::Put { u, c } => {
+            server.apply(&[(obj_uri(*u), Some(content(*u, *c)))]);
+        }
+        Op::Del { u } => {
+            server.apply(&[(obj_uri(*u), None)]);
+        }
+        Op::Multi(list) => {
+            let changes: Vec<(String, Option<Bytes>)> = list.iter().map(|(u, c)| (obj_uri(*u), c.map(|c| content(*u, c)))).collect();
+            server.apply(&changes);
+        }
+        Op::NewSession => server.new_session(),
+        Op::Jump(n) => server.jump(*n as u64),
+        Op::Trim(k) => server.trim(*k as usize),
+        Op::Rewrite { u, c } => {
+            // the newest delta additionally (re)publishes object u; the current state follows
+            let uri = obj_uri(*u);
+            let data = content(*u, *c);
+            let Some(last) = server.deltas.back_mut() else { return };
+            // state before that delta, for the element kind
+            let touched = last.els.iter().position(|e| match e {
+                DeltaEl::Publish { uri: x, .. } | DeltaEl::Update { uri: x, .. } | DeltaEl::Withdraw { uri: x, .. } => *x == uri,
+            });
+            match touched {
+                Some(p) => {
+                    let new_el = match &last.els[p] {
+                        DeltaEl::Publish { .. } => DeltaEl::Publish { uri: uri.clone(), data: data.clone() },
+                        DeltaEl::Update { old_hash, .. } => DeltaEl::Update { uri: uri.clone(), old_hash: old_hash.clone(), data: data.clone() },
+                        DeltaEl::Withdraw { hash, .. } => DeltaEl::Update { uri: uri.clone(), old_hash: hash.clone(), data: data.clone() },
+                    };
+                    last.els[p] = new_el;
+                }
+                None => match server.objects.get(&uri) {
+                    Some(old) => last.els.push(DeltaEl::Update { uri: uri.clone(), old_hash: sha256_hex(old), data: data.clone() }),
+                    None => last.els.push(DeltaEl::Publish { uri: uri.clone(), data: data.clone() }),
+                },
+            }
+            server.objects.insert(uri, data);
+            server.history.insert((server.session, server.serial), server.objects.clone());
+        }
+    }
+}
+
+const FOREIGN: &str = "rsync://rv.rpki.test/repo/foreign.roa";
+
+/// The elements plus one object the server never published (what a file from elsewhere would bring).
+fn foreign_els(els: &[DeltaEl]) -> Vec<DeltaEl> {
+    let mut v = els.to_vec();
+    v.push(DeltaEl::Publish { uri: FOREIGN.into(), data: Bytes::from_static(b"not from this server") });
+    v
+}
+
+fn foreign_objects(objects: &BTreeMap<String, Bytes>) -> BTreeMap<String, Bytes> {
+    let mut o = objects.clone();
+    o.insert(FOREIGN.into(), Bytes::from_static(b"not from this server"));
+    o
+}
+
+fn delta_uri_of(el: &DeltaEl) -> &str {
+    match el {
+        DeltaEl::Publish { uri, .. } | DeltaEl::Update { uri, .. } | DeltaEl::Withdraw { uri, .. } => uri,
+    }
+}
+
+/// Does the sorted list, read from `from` upwards, lead to `to` with a hole in between?
+fn gap_in_needed(list: &[(u64, String, String)], from: u64, to: u64) -> bool {
+    let mut serials: Vec<u64> = list.iter().map(|x| x.0).filter(|s| *s >= from && *s <= to).collect();
+    serials.sort();
+    if serials.first() != Some(&from) || serials.last() != Some(&to) {
+        return false;
+    }
+    serials.windows(2).any(|w| w[1] > w[0] + 1)
+}
+
+struct Outcome {
+    verdict: Option<Verdict>,
+}
+
+#[allow(clippy::too_many_lines)]
+fn prop(case: &Case, info: &mut CaseInfo) -> Verdict {
+    prop_with(case, info, true)
+}
+
+/// Directed representatives and replays run without the known-shape exclusion.
+fn prop_all(case: &Case, info: &mut CaseInfo) -> Verdict {
+    prop_with(case, info, false)
+}
+
+#[allow(clippy::too_many_lines)]
+fn prop_with(case: &Case, info: &mut CaseInfo, exclude_known: bool) -> Verdict {
+    let dir = tempfile::Builder::new().prefix("c25-").tempdir_in(scratch_base()).expect("tmp");
+    let srv = HttpsServer::start();
+    let mut server = RrdpServer::new(HOST, "rrdp", case.seed);
+    server.max_deltas = case.srv_deltas.max(1) as usize;
+    let mut config = client_config(dir.path(), &srv);
+    config.disable_rsync = true;
+    config.rrdp_max_delta_count = case.max_delta_count.max(1) as usize;
+    config.rrdp_max_delta_list_len = case.max_list_len.max(1) as usize;
+    let mut collector = match Collector::new(&config) {
+        Ok(c) => c,
+        Err(_) => return Verdict::Dropped("collector_new_failed".into()),
+    };
+    if collector.ignite().is_err() {
+        return Verdict::Dropped("collector_ignite_failed".into());
+    }
+    let notify = server.notify_uri();
+    let ca = ta_ca_cert(0, &uri::Rsync::from_string("rsync://rv.rpki.test/repo/".into()).unwrap(), Some(&notify));
+    let universe: Vec<uri::Rsync> = (0..N_URIS).map(|u| uri::Rsync::from_string(obj_uri(u)).unwrap()).collect();
+
+    let mut local: Option<Local> = None;
+    let mut versions: Vec<Version> = Vec::new();
+    let mut dirty = false;
+    // serials (of the current session) whose delta the server rewrote in place since the client's last good update
+    let mut rewritten: Vec<u64> = Vec::new();
+    let mut n_fetch = 0usize;
+    let mut delta_path_updates = 0usize;
+    let mut faults_seen = 0usize;
+    let known_gap = exclude_known && is_listed_known("C25", KEY_GAP);
+    let known_reuse = exclude_known && is_listed_known("C25", KEY_REUSE);
+    let known_304 = exclude_known && is_listed_known("C25", KEY_304_NOCOPY);
+
+    for step in &case.steps {
+        let faults = match step {
+            Step::Server(op) => {
+                if matches!(op, Op::Rewrite { .. }) {
+                    if let Some(d) = server.deltas.back() {
+                        rewritten.push(d.serial);
+                    }
+                }
+                if matches!(op, Op::NewSession) {
+                    rewritten.clear();
+                }
+                apply_op(&mut server, op);
+                continue;
+            }
+            Step::Fetch(f) => f,
+        };
+        n_fetch += 1;
+        // --- truthful files (old paths stay served)
+        let truthful_notification = server.notification_xml();
+        let tag = format!("\"{}\"", &sha256_hex(&truthful_notification)[..16]);
+        let mk_notify = |body: Vec<u8>| -> Resp {
+            if case.etag {
+                Resp::ok(body).etag(&tag).conditional()
+            } else {
+                Resp::ok(body)
+            }
+        };
+        srv.set(HOST, &server.notify_path(), mk_notify(truthful_notification.clone()));
+        srv.set(HOST, &server.snapshot_path(), Resp::ok(server.snapshot_xml()));
+        for d in &server.deltas {
+            srv.set(HOST, &server.delta_path(d.serial), Resp::ok(render_delta(&server.session, d.serial, &d.els)));
+        }
+        versions.push(Version { session: server.session, serial: server.serial, objects: server.objects.clone(), notification: truthful_notification.clone() });
+
+        // --- faults
+        let mut list = server.delta_list(); // ascending
+        let mut list_changed = false;
+        let mut notified: (Uuid, u64) = (server.session, server.serial);
+        let mut truth = server.objects.clone();
+        let mut notif_override: Option<Resp> = None;
+        let mut snapshot_override: Option<Resp> = None;
+        let mut snapshot_semantic = false;
+        let mut applied: Vec<&'static str> = Vec::new();
+        // serials the client needs if it follows deltas
+        let needed: Vec<u64> = match &local {
+            Some(l) if l.session == server.session && l.serial < server.serial => list.iter().map(|x| x.0).filter(|s| *s > l.serial).collect(),
+            _ => Vec::new(),
+        };
+        let pick = |i: u8, list: &[(u64, String, String)]| -> Option<u64> {
+            if !needed.is_empty() {
+                Some(needed[i as usize % needed.len()])
+            } else if !list.is_empty() {
+                Some(list[i as usize % list.len()].0)
+            } else {
+                None
+            }
+        };
+        let delta_rec = |serial: u64| server.deltas.iter().find(|d| d.serial == serial).cloned();
+        for f in faults {
+            use Fault::*;
+            match f {
+                N404 => notif_override = Some(Resp::status(404)),
+                N500 => notif_override = Some(Resp::status(500)),
+                NDrop => notif_override = Some(Resp::ok(truthful_notification.clone()).drop_after(truthful_notification.len() / 2)),
+                NMalformed => {
+                    let mut b = truthful_notification[..truthful_notification.len() * 2 / 3].to_vec();
+                    b.extend_from_slice(b"<oops");
+                    notif_override = Some(Resp::ok(b));
+                }
+                N304 => {
+                    if known_304 && local.is_none() {
+                        EXCLUDED_304.fetch_add(1, Ordering::Relaxed);
+                        info.class("excluded_known:304-without-copy");
+                        continue;
+                    }
+                    notif_override = Some(Resp::status(304));
+                }
+                NStale(k) => {
+                    if versions.len() >= 2 {
+                        let idx = versions.len().saturating_sub(1 + *k as usize);
+                        let v = &versions[idx];
+                        notif_override = Some(Resp::ok(v.notification.clone()));
+                        notified = (v.session, v.serial);
+                        truth = v.objects.clone();
+                    } else {
+                        continue;
+                    }
+                }
+                NOtherOrigin => {
+                    if let Some(e) = list.first_mut() {
+                        e.1 = e.1.replace(HOST, "other.rpki.test");
+                        list_changed = true;
+                    } else {
+                        continue;
+                    }
+                }
+                LTruncNew(k) => {
+                    if list.is_empty() {
+                        continue;
+                    }
+                    for _ in 0..*k {
+                        list.pop();
+                    }
+                    list_changed = true;
+                }
+                LTruncOld(k) => {
+                    if list.is_empty() {
+                        continue;
+                    }
+                    for _ in 0..(*k as usize).min(list.len()) {
+                        list.remove(0);
+                    }
+                    list_changed = true;
+                }
+                LGap(i) => {
+                    // remove an inner entry of the needed range (or of the list)
+                    let inner: Vec<u64> = if needed.len() >= 3 { needed[1..needed.len() - 1].to_vec() } else if needed.is_empty() && list.len() >= 3 { list[1..list.len() - 1].iter().map(|x| x.0).collect() } else { Vec::new() };
+                    if inner.is_empty() {
+                        continue;
+                    }
+                    let victim = inner[*i as usize % inner.len()];
+                    let mut candidate = list.clone();
+                    candidate.retain(|x| x.0 != victim);
+                    if let Some(l) = &local {
+                        if known_gap && l.session == server.session && gap_in_needed(&candidate, l.serial + 1, server.serial) {
+                            EXCLUDED_GAP.fetch_add(1, Ordering::Relaxed);
+                            info.class("excluded_known:gap");
+                            continue;
+                        }
+                    }
+                    list = candidate;
+                    list_changed = true;
+                }
+                LDup(i) => {
+                    let Some(s) = pick(*i, &list) else { continue };
+                    let Some(e) = list.iter().find(|x| x.0 == s).cloned() else { continue };
+                    list.push(e);
+                    list_changed = true;
+                }
+                LHashMut(i) => {
+                    let Some(s) = pick(*i, &list) else { continue };
+                    let Some(rec) = delta_rec(s) else { continue };
+                    let mut body = render_delta(&server.session, s, &rec.els);
+                    body.extend_from_slice(b"<!-- reserialised -->\n");
+                    for e in list.iter_mut().filter(|x| x.0 == s) {
+                        e.2 = sha256_hex(&body);
+                    }
+                    srv.set(HOST, &server.delta_path(s), Resp::ok(body));
+                    list_changed = true;
+                }
+                LOverlong => {
+                    let want = case.max_list_len as usize + 2;
+                    let mut low = list.first().map(|x| x.0).unwrap_or(server.serial + 1);
+                    let template = list.first().cloned().unwrap_or((0, server.abs(&server.delta_path(0)), sha256_hex(b"x")));
+                    while list.len() < want {
+                        low = low.saturating_sub(1);
+                        let mut e = template.clone();
+                        e.0 = low;
+                        e.1 = server.abs(&server.delta_path(low));
+                        list.insert(0, e);
+                    }
+                    list_changed = true;
+                }
+                DHash(i) | DTamper(i) | DMalformed(i) | DSession(i) | DSerial(i) | D404(i) | D500(i) | DDrop(i) | DRepeat(i) | DPubExisting(i) | DWithdrawMissing(i) => {
+                    let Some(s) = pick(*i, &list) else { continue };
+                    let Some(rec) = delta_rec(s) else { continue };
+                    let honest = render_delta(&server.session, s, &rec.els);
+                    let path = server.delta_path(s);
+                    let mut relist: Option<Vec<u8>> = None;
+                    match f {
+                        DHash(_) => {
+                            let mut b = honest.clone();
+                            b.extend_from_slice(b"<!-- not what was listed -->\n");
+                            srv.set(HOST, &path, Resp::ok(b));
+                        }
+                        DTamper(_) => {
+                            srv.set(HOST, &path, Resp::ok(render_delta(&server.session, s, &foreign_els(&rec.els))));
+                        }
+                        DMalformed(_) => {
+                            let mut b = honest[..honest.len() * 3 / 4].to_vec();
+                            b.extend_from_slice(b"<oops");
+                            relist = Some(b.clone());
+                            srv.set(HOST, &path, Resp::ok(b));
+                        }
+                        DSession(_) => {
+                            let b = render_delta(&session_uuid(case.seed ^ 0xdead, 99), s, &foreign_els(&rec.els));
+                            relist = Some(b.clone());
+                            srv.set(HOST, &path, Resp::ok(b));
+                        }
+                        DSerial(_) => {
+                            let b = render_delta(&server.session, s + 1, &foreign_els(&rec.els));
+                            relist = Some(b.clone());
+                            srv.set(HOST, &path, Resp::ok(b));
+                        }
+                        D404(_) => srv.set(HOST, &path, Resp::status(404)),
+                        D500(_) => srv.set(HOST, &path, Resp::status(500)),
+                        DDrop(_) => srv.set(HOST, &path, Resp::ok(honest.clone()).drop_after(honest.len() * 3 / 4)),
+                        DRepeat(_) => {
+                            let Some(first) = rec.els.first().cloned() else { continue };
+                            let mut els = rec.els.clone();
+                            // the same object once more: withdraw what the first element left behind
+                            let again = match &first {
+                                DeltaEl::Publish { uri, data } | DeltaEl::Update { uri, data, .. } => DeltaEl::Withdraw { uri: uri.clone(), hash: sha256_hex(data) },
+                                DeltaEl::Withdraw { uri, .. } => DeltaEl::Publish { uri: uri.clone(), data: content(0, 0) },
+                            };
+                            els.push(again);
+                            let b = render_delta(&server.session, s, &els);
+                            relist = Some(b.clone());
+                            srv.set(HOST, &path, Resp::ok(b));
+                        }
+                        DPubExisting(_) => {
+                            // an object that exists before and after this delta and is not touched by it
+                            let before = server.history.get(&(server.session, s - 1));
+                            let Some(victim) = before.and_then(|b| b.iter().find(|(u, _)| !rec.els.iter().any(|e| delta_uri_of(e) == u.as_str())).map(|(u, d)| (u.clone(), d.clone()))) else { continue };
+                            let mut els = rec.els.clone();
+                            els.push(DeltaEl::Publish { uri: victim.0, data: content(5, 2) });
+                            let b = render_delta(&server.session, s, &els);
+                            relist = Some(b.clone());
+                            srv.set(HOST, &path, Resp::ok(b));
+                        }
+                        DWithdrawMissing(_) => {
+                            let mut els = rec.els.clone();
+                            els.push(DeltaEl::Withdraw { uri: "rsync://rv.rpki.test/repo/never-published.roa".into(), hash: sha256_hex(b"nothing") });
+                            let b = render_delta(&server.session, s, &els);
+                            relist = Some(b.clone());
+                            srv.set(HOST, &path, Resp::ok(b));
+                        }
+                        _ => unreachable!(),
+                    }
+                    if let Some(b) = relist {
+                        for e in list.iter_mut().filter(|x| x.0 == s) {
+                            e.2 = sha256_hex(&b);
+                        }
+                        list_changed = true;
+                    }
+                }
+                SHash | STamper | SMalformed | SSession | SSerial | S404 | S500 | SDrop | SDup => {
+                    // one snapshot fault per fetch: the first one wins
+                    if snapshot_override.is_some() {
+                        continue;
+                    }
+                    snapshot_semantic = matches!(f, SSession | SSerial | SDup);
+                    let honest = server.snapshot_xml();
+                    snapshot_override = Some(match f {
+                        SHash => {
+                            let mut b = honest.clone();
+                            b.extend_from_slice(b"<!-- not what was listed -->\n");
+                            Resp::ok(b)
+                        }
+                        STamper => Resp::ok(render_snapshot(&server.session, server.serial, &foreign_objects(&server.objects))),
+                        SMalformed => {
+                            let mut b = honest[..honest.len() * 3 / 4].to_vec();
+                            b.extend_from_slice(b"<oops");
+                            Resp::ok(b)
+                        }
+                        SSession => Resp::ok(render_snapshot(&session_uuid(case.seed ^ 0xdead, 98), server.serial, &foreign_objects(&server.objects))),
+                        SSerial => Resp::ok(render_snapshot(&server.session, server.serial + 1, &foreign_objects(&server.objects))),
+                        S404 => Resp::status(404),
+                        S500 => Resp::status(500),
+                        SDrop => Resp::ok(honest.clone()).drop_after(honest.len() / 2),
+                        SDup => {
+                            let Some((u, d)) = server.objects.iter().next() else { continue };
+                            let mut s = String::from_utf8(honest.clone()).unwrap();
+                            let extra = format!("  <publish uri=\"{}\">{}</publish>\n</snapshot>\n", u, rpki::util::base64::Xml.encode(d));
+                            s = s.replace("</snapshot>\n", &extra);
+                            Resp::ok(s.into_bytes())
+                        }
+                        _ => unreachable!(),
+                    });
+                }
+            }
+            applied.push(f.name());
+        }
+        // snapshot faults that keep the listed hash honest-vs-file: for S* the notification keeps the honest hash
+        // except the semantic ones (session/serial/dup) where the listed hash follows the file so that only the
+        // semantic check can notice.
+        let mut snapshot_hash = sha256_hex(&server.snapshot_xml());
+        if let Some(r) = &snapshot_override {
+            if snapshot_semantic && r.status == 200 {
+                snapshot_hash = sha256_hex(&r.body);
+                list_changed = true;
+            }
+            srv.set(HOST, &server.snapshot_path(), r.clone());
+        }
+        if notif_override.is_none() && list_changed {
+            let mut l = list.clone();
+            l.reverse();
+            notif_override = Some(mk_notify(render_notification(&server.session, server.serial, &server.abs(&server.snapshot_path()), &snapshot_hash, &l)));
+        }
+        if let Some(r) = notif_override {
+            srv.set(HOST, &server.notify_path(), r);
+        }
+        faults_seen += applied.len();
+        for a in &applied {
+            info.class(format!("fault:{}", a));
+        }
+
+        // --- the client update
+        let _ = srv.take_log();
+        let before = archive_objects(&config, &notify);
+        let recorded: Vec<u64> = archive_state(&config, &notify).ok().flatten().map(|st| st.delta_state.keys().copied().collect()).unwrap_or_default();
+        let run = collector.start();
+        let res = run.repository(&ca);
+        let log = srv.take_log();
+        let got304 = log.iter().any(|r| r.path == server.notify_path() && r.status == 304);
+        let delta_ok = log.iter().filter(|r| r.path.ends_with("/delta.xml") && r.status == 200).count();
+        let snap_req = log.iter().any(|r| r.path.ends_with("/snapshot.xml"));
+        let out = (|| -> Outcome {
+            let fail = |k: String, m: String| Outcome { verdict: Some(Verdict::fail(k, m)) };
+            match &res {
+                Ok(Some(repo)) if repo.is_rrdp() => {
+                    let (n_sess, n_serial, want) = if got304 {
+                        match &local {
+                            Some(l) => (l.session, l.serial, l.objects.clone()),
+                            None => return fail("C25/not-modified-without-copy-reported-updated".into(), format!("fetch {}: 304 answered to a client without a local copy, yet an RRDP repository was handed out", n_fetch)),
+                        }
+                    } else {
+                        (notified.0, notified.1, truth.clone())
+                    };
+                    let after = match archive_objects(&config, &notify) {
+                        Ok(Some(a)) => a,
+                        Ok(None) => return fail("C25/updated-but-no-archive".into(), format!("fetch {}: update reported successful but there is no archive file", n_fetch)),
+                        Err(e) => return fail("C25/updated-but-archive-unreadable".into(), format!("fetch {}: {}", n_fetch, e)),
+                    };
+                    if after != want {
+                        // A rewritten delta the client had already applied can only be noticed if the served list still
+                        // names that serial and the client recorded its hash at its last update; otherwise no client can tell.
+                        let undetectable = local.as_ref().map(|l| l.session == n_sess && rewritten.iter().any(|k| *k <= l.serial && !(list.iter().any(|e| e.0 == *k) && recorded.contains(k)))).unwrap_or(false);
+                        if undetectable {
+                            return Outcome { verdict: Some(Verdict::Dropped("rewritten_delta_not_detectable".into())) };
+                        }
+                        let unchanged = before.as_ref().ok().and_then(|b| b.as_ref()).map(|b| *b == after).unwrap_or(false);
+                        let gap = local.as_ref().map(|l| l.session == n_sess && gap_in_needed(&list, l.serial + 1, n_serial)).unwrap_or(false);
+                        let _ = unchanged;
+                        let key = if dirty && !snap_req {
+                            KEY_REUSE.to_string()
+                        } else if gap && !snap_req {
+                            KEY_GAP.to_string()
+                        } else {
+                            let mut a = applied.clone();
+                            a.sort();
+                            a.dedup();
+                            format!("C25/archive-differs-from-snapshot/faults={}", a.join("+"))
+                        };
+                        let diff: Vec<String> = want.keys().chain(after.keys()).collect::<std::collections::BTreeSet<_>>().into_iter().filter(|u| want.get(*u) != after.get(*u)).map(|u| format!("{} server={:?} local={:?}", u, want.get(u).map(|d| d.len()), after.get(u).map(|d| d.len()))).collect();
+                        return fail(key, format!("fetch {} (faults {:?}, 304={}, deltas fetched ok={}, snapshot requested={}): update reported successful for session {} serial {} but the archive differs from the server's object set at that serial: {}; local state before: {:?}", n_fetch, applied, got304, delta_ok, snap_req, n_sess, n_serial, diff.join("; "), local.as_ref().map(|l| (l.session, l.serial))));
+                    }
+                    match archive_state(&config, &notify) {
+                        Ok(Some(st)) => {
+                            if st.session != n_sess || st.serial != n_serial {
+                                return fail("C25/state-differs-from-notified".into(), format!("fetch {}: notified session {} serial {}, recorded session {} serial {}", n_fetch, n_sess, n_serial, st.session, st.serial));
+                            }
+                        }
+                        _ => return fail("C25/updated-but-state-unreadable".into(), format!("fetch {}", n_fetch)),
+                    }
+                    for u in &universe {
+                        match repo.load_object(u) {
+                            Ok(got) => {
+                                if got.as_ref() != want.get(u.as_str()) {
+                                    return fail("C25/load-object-differs".into(), format!("fetch {}: load_object({}) = {:?} bytes, server has {:?} bytes", n_fetch, u, got.map(|d| d.len()), want.get(u.as_str()).map(|d| d.len())));
+                                }
+                            }
+                            Err(_) => return fail("C25/load-object-fails".into(), format!("fetch {}: load_object({}) failed on an updated repository", n_fetch, u)),
+                        }
+                    }
+                    if delta_ok > 0 && !snap_req {
+                        delta_path_updates += 1;
+                        info.class("success:delta");
+                    } else if snap_req {
+                        info.class("success:snapshot");
+                    } else if got304 {
+                        info.class("success:not-modified");
+                    } else {
+                        info.class("success:already-current");
+                    }
+                    local = Some(Local { session: n_sess, serial: n_serial, objects: want });
+                    dirty = false;
+                    if !got304 && n_sess == server.session && n_serial == server.serial {
+                        rewritten.clear();
+                    }
+                }
+                Ok(Some(_)) => return fail("C25/non-rrdp-repository".into(), "rsync is disabled, yet a non-RRDP repository was returned".into()),
+                Ok(None) => {
+                    info.class("reported:not-updated");
+                    if applied.is_empty() {
+                        CLEAN_FETCH_FAILED.fetch_add(1, Ordering::Relaxed);
+                        info.class("clean-fetch-not-updated");
+                    }
+                    // was the copy touched although the update is reported failed?
+                    if let (Some(l), Ok(Some(a))) = (&local, archive_objects(&config, &notify)) {
+                        if a != l.objects {
+                            dirty = true;
+                            info.class("copy-modified-by-failed-update");
+                        }
+                    }
+                }
+                Err(e) => {
+                    info.class(if e.is_fatal() { "run-failed:fatal" } else { "run-failed:retry" });
+                    if got304 && local.is_none() {
+                        return fail(KEY_304_NOCOPY.into(), format!("fetch {}: the server answered 304 Not Modified to a client that has no local copy (no validators were sent); routinator treats this as a successful update, then fails the whole validation run (RunFailed, fatal={}) instead of reporting the repository as not updated", n_fetch, e.is_fatal()));
+                    }
+                    return fail(format!("C25/run-failed/faults={}", applied.join("+")), format!("fetch {}: Run::repository failed the run (fatal={}) with faults {:?}", n_fetch, e.is_fatal(), applied));
+                }
+            }
+            Outcome { verdict: None }
+        })();
+        drop(res);
+        drop(run);
+        if let Some(v) = out.verdict {
+            return v;
+        }
+        if dirty && known_reuse {
+            // everything that follows starts from a copy a failed update has modified: the listed shape
+            EXCLUDED_REUSE.fetch_add(1, Ordering::Relaxed);
+            info.class("excluded_known:reuse(case cut after the failed update modified the copy)");
+            break;
+        }
+        // restore honest files for what was overlaid
+        for d in &server.deltas {
+            srv.set(HOST, &server.delta_path(d.serial), Resp::ok(render_delta(&server.session, d.serial, &d.els)));
+        }
+        srv.set(HOST, &server.snapshot_path(), Resp::ok(server.snapshot_xml()));
+    }
+    info.nt(delta_path_updates >= 1 && faults_seen >= 1);
+    info.class(format!("fetches:{}", n_fetch));
+    Verdict::Pass
+}
+
+fn directed_gap() -> Case {
+    Case {
+        seed: 1,
+        srv_deltas: 8,
+        max_delta_count: 4,
+        max_list_len: 8,
+        etag: false,
+        steps: vec![
+            Step::Server(Op::Put { u: 0, c: 0 }),
+            Step::Fetch(vec![]),
+            Step::Server(Op::Put { u: 1, c: 0 }),
+            Step::Server(Op::Put { u: 2, c: 0 }),
+            Step::Server(Op::Put { u: 3, c: 0 }),
+            Step::Fetch(vec![Fault::LGap(0)]),
+        ],
+    }
+}
+
+fn directed_304() -> Case {
+    Case { seed: 3, srv_deltas: 8, max_delta_count: 4, max_list_len: 8, etag: false, steps: vec![Step::Server(Op::Put { u: 0, c: 0 }), Step::Fetch(vec![Fault::N304]), Step::Fetch(vec![])] }
+}
+
+/// Second manifestation of the same root cause: the residue of a refused (tampered) delta survives a later,
+/// fully successful delta update.
+fn directed_residue() -> Case {
+    Case {
+        seed: 4,
+        srv_deltas: 4,
+        max_delta_count: 4,
+        max_list_len: 8,
+        etag: false,
+        steps: vec![
+            Step::Server(Op::Put { u: 5, c: 0 }),
+            Step::Fetch(vec![]),
+            Step::Server(Op::Put { u: 5, c: 0 }),
+            Step::Server(Op::Put { u: 0, c: 0 }),
+            Step::Fetch(vec![Fault::DTamper(0), Fault::S404]),
+            Step::Fetch(vec![]),
+        ],
+    }
+}
+
+fn directed_reuse() -> Case {
+    Case {
+        seed: 2,
+        srv_deltas: 8,
+        max_delta_count: 4,
+        max_list_len: 8,
+        etag: false,
+        steps: vec![
+            Step::Server(Op::Put { u: 0, c: 0 }),
+            Step::Fetch(vec![]),
+            Step::Server(Op::Put { u: 1, c: 0 }),
+            Step::Fetch(vec![Fault::DHash(0), Fault::S404]),
+            Step::Fetch(vec![Fault::N304]),
+        ],
+    }
+}
+
+pub fn run(ctx: &Ctx, rep: &mut Report, replay: Option<&serde_json::Value>) {
+    rep.rule("stateful: RRDP publisher model over 6 URIs x 3 contents driven by generated ops (put/delete/multi-change delta, new session, serial jump, delta list trimmed, newest delta rewritten in place); 2-8 client updates per case through routinator's collector (Collector::start -> Run::repository) against the in-harness HTTPS server, each with 0-2 faults out of 33 kinds (notification 404/500/drop/malformed/304/stale/other origin; delta list truncated at either end/gapped/duplicated/hash-mutated/over-long; delta file wrong hash/altered content/malformed/foreign session/foreign serial/404/500/drop mid-body/object repeated/publish-of-existing/withdraw-of-missing; snapshot wrong hash/altered content/malformed/foreign session/foreign serial/404/500/drop/duplicate object), small rrdp-max-delta-count / rrdp-max-delta-list-len, local cache carried over; oracle: repository handed out => archive == server object set at the notified session+serial (304: the local state's) byte for byte, recorded state names it, load_object agrees; non-trivial = at least one successful delta-path update and at least one applied fault in the history; distinct by serialised case");
+    rep.assume("the publisher model (httpsrv::RrdpServer) renders RFC 8182 files as rpki::rrdp parses them; 'not updated' is observed as Run::repository == Ok(None) with rsync disabled; a semantic fault inside a delta/snapshot file is listed with the faulty file's own hash so that only routinator's semantic checks can notice it");
+    ctx.shrink_iters.store(300, std::sync::atomic::Ordering::Relaxed);
+    if let Some(v) = replay {
+        let t: Tagged<Case> = serde_json::from_value(v.clone()).expect("replay");
+        run_case(ctx, rep, &t.sub, &t.case, prop_all);
+        return;
+    }
+    // directed representatives of the known findings
+    run_case(ctx, rep, "directed-gap", &directed_gap(), prop_all);
+    run_case(ctx, rep, "directed-reuse", &directed_reuse(), prop_all);
+    run_case(ctx, rep, "directed-residue", &directed_residue(), prop_all);
+    run_case(ctx, rep, "directed-304", &directed_304(), prop_all);
+    run_prop_par(ctx, rep, "histories", ctx.tier.pick(600, 8000), 8, || case_strategy(ctx.tier.pick(22, 30)), prop);
+    let g = EXCLUDED_GAP.load(Ordering::Relaxed);
+    if g > 0 {
+        *rep.excluded_known.entry(KEY_GAP.into()).or_default() += g;
+    }
+    let r = EXCLUDED_REUSE.load(Ordering::Relaxed);
+    if r > 0 {
+        *rep.excluded_known.entry(KEY_REUSE.into()).or_default() += r;
+    }
+    let n = EXCLUDED_304.load(Ordering::Relaxed);
+    if n > 0 {
+        *rep.excluded_known.entry(KEY_304_NOCOPY.into()).or_default() += n;
+    }
+    rep.extra.insert("clean_fetches_reported_not_updated".into(), serde_json::json!(CLEAN_FETCH_FAILED.load(Ordering::Relaxed)));
 }
